@@ -166,6 +166,75 @@ theorem columns1_nodup {le : ι → ι → Bool} {cols c2 : List ι} (h : cols.N
     (columns1 le cols c2).Nodup :=
   (List.mergeSort_perm _ le).nodup_iff.2 (h.filter _)
 
+
+/-! ### the quantifier of the property, and what "correctly labelled" means -/
+
+/-- a call inside the property's quantifier: distinct training columns, distinct condition keys
+    forming a non-empty proper subset of the training columns. -/
+structure WellFormed (cols : List ι) (c : Conditions ι α) : Prop where
+  cols_nodup : cols.Nodup
+  keys_nodup : c.keys.Nodup
+  keys_sub : ∀ k ∈ c.keys, k ∈ cols
+  nonempty : c.items ≠ []
+  proper : ∃ col ∈ cols, col ∉ c.keys
+
+/-- `nc` attaches to every condition key exactly the score of THAT key's own value. -/
+def Aligned (score : ι → α → α) (items nc : List (ι × α)) : Prop :=
+  (nc.map Prod.fst).Perm (items.map Prod.fst) ∧
+    ∀ k s, (k, s) ∈ nc → ∃ x, (k, x) ∈ items ∧ s = score k x
+
+/-- the conditions are listed in the same relative order as the training columns. -/
+def InTrainingOrder (cols keys : List ι) : Prop := walked cols keys = keys
+
+theorem walkedScores_aligned {cols : List ι} {score : ι → α → α} {c : Conditions ι α}
+    (hw : WellFormed cols c) : Aligned score c.items (walkedScores cols score c.items) := by
+  refine ⟨?_, ?_⟩
+  · rw [walkedScores_fst]
+    exact walked_perm hw.cols_nodup hw.keys_nodup hw.keys_sub
+  · intro k s h
+    obtain ⟨_, x, hl, rfl⟩ := mem_walkedScores h
+    exact ⟨x, mem_of_lookup_eq_some hl, rfl⟩
+
+theorem walkedScores_length {cols : List ι} {score : ι → α → α} {c : Conditions ι α}
+    (hw : WellFormed cols c) : (walkedScores cols score c.items).length = c.items.length := by
+  have h := (walked_perm hw.cols_nodup hw.keys_nodup hw.keys_sub).length_eq
+  rw [← walkedScores_fst cols score c.items] at h
+  simpa [Conditions.keys] using h
+
+theorem walkedScores_ne_nil {cols : List ι} {score : ι → α → α} {c : Conditions ι α}
+    (hw : WellFormed cols c) : (walkedScores cols score c.items).isEmpty = false := by
+  have h := walkedScores_length (score := score) hw
+  have hne := hw.nonempty
+  cases hws : walkedScores cols score c.items with
+  | nil => rw [hws] at h; exact absurd (List.length_eq_zero_iff.1 h.symm) hne
+  | cons _ _ => rfl
+
+/-- labels of `normal_conditions` are always among the caller's keys. -/
+theorem normalConditions_labels_sub {v : Variant} {cols : List ι} {score : ι → α → α} {c : Conditions ι α}
+    {nc : List (ι × α)} (h : normalConditions v cols score c = .ok nc) :
+    ∀ k ∈ nc.map Prod.fst, k ∈ c.keys := by
+  unfold normalConditions at h
+  simp only at h
+  split at h
+  · simp at h
+  · cases hv : v.labelling with
+    | callerOrder =>
+      simp only [hv] at h
+      split at h
+      · simp only [Except.ok.injEq] at h
+        subst h
+        intro k hk
+        rw [List.map_fst_zip] at hk
+        · exact hk
+        · simp_all [Conditions.keys]
+      · simp at h
+    | walked =>
+      simp only [hv, Except.ok.injEq] at h
+      subst h
+      intro k hk
+      rw [walkedScores_fst] at hk
+      exact (walked_mem.1 hk).2
+
 /-! ### the loop of `sample` -/
 
 theorem planCols_spec {v : Variant} {c : Conditions ι α} :
@@ -327,6 +396,7 @@ theorem schur_isSymm {m k : Type} [Fintype m] [Fintype k] [DecidableEq k] (A : M
   rw [Matrix.transpose_sub, Matrix.transpose_mul, Matrix.transpose_mul, Matrix.transpose_nonsing_inv,
     hA.eq, hD.eq, ← hBC, Matrix.transpose_transpose, Matrix.mul_assoc]
 
+omit [DecidableEq ι] in
 /-- Σ PSD and the `columns2` block PD ⇒ the Schur complement of that block is PSD. -/
 theorem schur_posSemidef (M : Matrix ι ι ℝ) (hM : M.PosSemidef) {m k : ℕ} (e1 : Fin m → ι) (e2 : Fin k → ι)
     (hD : (M.submatrix e2 e2).PosDef) :
